@@ -188,6 +188,19 @@ claim("C18", "proof",
       "model / AST expectation (15k trait lines in quick).",
       TB, "Coq proof (derived traits) + differential trait dump")
 
+claim("C11", "proof",
+      "PARTIAL (overload resolution by the compiler is outside any model). 7 theorems (Properties_C11.v) over a capability "
+      "model of 228 operation kinds derived from the guards (enable_if_writable_t, enable_if_cursor_writeable_t, "
+      "enable_if_convertible_t): every mutator is rejected for const bytes and for const cursors (also through "
+      "get_by_tag/set_by_tag and the header fillers), conversions of views/cursors exist exactly towards more-const and "
+      "compose, a client holding only const views can compile no mutator, readers stay available on const, mutators on "
+      "mutable. Tie: a generated probe TU evaluates C++11 detection idioms for every (view class, operation, byte "
+      "constness, cursor constness) and conversion of a hand schema covering all 228 ops plus random schemas and is "
+      "compared cell by cell with the model (34k cells quick); negative compilations; run time: every reader on PROT_READ "
+      "and checksummed buffers (no fault, no change), every mutator through a PROT_READ mapping must fault.",
+      TB + " The run-time half (readers never write) has no theorem: it is decided by the PROT_READ/checksum runs.",
+      "Coq proof (capability/convertibility lattice) + exhaustive compile-time probe table + read-only mapping runs")
+
 NOT_YET = {}
 ALL = ["C%02d" % i for i in range(1, 21)]
 
